@@ -77,6 +77,9 @@ func (in *flInst) build(state map[string]interface{}) error {
 		}
 	}
 	bw, _ := state["bw"].(bool)
+	// bprev (Flushable.tla): the store's batch object has written and been Reset before and nothing was flushed or
+	// dropped since: the overlay of such a state is written through that object
+	bprev, _ := state["bprev"].(bool)
 	// a written batch whose keys are still unflushed with its values is written last (the natural history);
 	// otherwise it is written first and what it wrote discarded
 	late := bw && opsConsistent(list(state["batch"]), pairs(state["over"]), "x")
@@ -89,6 +92,7 @@ func (in *flInst) build(state map[string]interface{}) error {
 			return err
 		}
 		in.fl.DropNotFlushed()
+		in.noteFlushed()
 	}
 	if in.lazy != nil && (len(under) > 0 || anyLive) {
 		// a lazy store reads from its real database only once that exists
@@ -112,7 +116,11 @@ func (in *flInst) build(state map[string]interface{}) error {
 	if err := setContent(in.under, under); err != nil {
 		return err
 	}
-	if err := in.writeOver(pairs(state["over"]), in.viaBatch && !(bw && !late)); err != nil {
+	useBatch := (in.viaBatch || bprev) && !(bw && !late)
+	if bprev && useBatch && len(pairs(state["over"])) > 0 {
+		in.stats.PreStatesViaSpecBatch++
+	}
+	if err := in.writeOver(pairs(state["over"]), useBatch); err != nil {
 		return err
 	}
 	if bw && !late {
@@ -135,9 +143,12 @@ func (in *flInst) Apply(act map[string]interface{}) (map[string]interface{}, err
 	}
 	switch str(act["op"]) {
 	case "flush":
-		return map[string]interface{}{}, in.fl.Flush()
+		err := in.fl.Flush()
+		in.noteFlushed()
+		return map[string]interface{}{}, err
 	case "drop":
 		in.fl.DropNotFlushed()
+		in.noteFlushed()
 		return map[string]interface{}{}, nil
 	case "clear":
 		// through the public API: delete every visible key, then flush
@@ -150,7 +161,9 @@ func (in *flInst) Apply(act map[string]interface{}) (map[string]interface{}, err
 				return nil, err
 			}
 		}
-		return map[string]interface{}{}, in.fl.Flush()
+		err := in.fl.Flush()
+		in.noteFlushed()
+		return map[string]interface{}{}, err
 	case "goto":
 		return map[string]interface{}{}, in.build(obj(act["state"]))
 	}
@@ -158,6 +171,7 @@ func (in *flInst) Apply(act map[string]interface{}) (map[string]interface{}, err
 }
 
 func (in *flInst) Project() interface{} {
+	in.noteRead()
 	return map[string]interface{}{
 		"view":  readerObs(in.fl, in.env.Conf),
 		"nfp":   in.fl.NotFlushedPairs(),
@@ -171,6 +185,7 @@ func (in *flInst) Project() interface{} {
 func FlushableAdapter(env *Env, kind, backend string) replay.Adapter {
 	name := kind + ":" + backend
 	raw := env.newRaw(backend, name)
+	stats := env.newStats(name)
 	n := 0
 	return replay.Adapter{Name: name, New: func(pre interface{}) (replay.Inst, error) {
 		db, err := raw.get()
@@ -178,7 +193,7 @@ func FlushableAdapter(env *Env, kind, backend string) replay.Adapter {
 			return nil, err
 		}
 		n++
-		in := &flInst{core: core{env: env, tick: func() {}, viaBatch: n%2 == 0}, under: db}
+		in := &flInst{core: core{env: env, tick: func() {}, viaBatch: n%2 == 0, stats: stats}, under: db}
 		switch kind {
 		case "fl":
 			in.fl = flushable.Wrap(db)
